@@ -333,9 +333,12 @@ Section Transforms.
     let sorted := map snd (sort_by ints)
                   ++ map snd (fold_left (fun acc lf => insert_str (fst lf) (snd lf) acc) strs []) in
     tfor sorted (fun fn =>
-      n <~ node_of fn ;;
-      _ <~ upd_tree (remove_oid fn) ;;
-      upd_tree (fun t => add_children t [n])).
+      t <~ get_tree ;;
+      if oid_of t =? fn then tfail (EPy AttributeError)        (* footnote.parent is None *)
+      else
+        n <~ node_of fn ;;
+        _ <~ upd_tree (remove_oid fn) ;;
+        upd_tree (fun t => add_children t [n])).
 
   (* ---------------- ResolveAnchorIds ---------------- *)
   Definition title_of_children (cs : list node) : option (option str) :=
